@@ -4,6 +4,13 @@ import Chiritori.Props.C08Wide
   C18 byte for byte on the wide region of C08: the texts of the document may contain the characters of both delimiter
   pairs - the first ones included - as long as the pieces fit both pairs in the sense of `wideOK` (Props/C08Wide.lean)
   and the tag bodies can be stripped of both pairs.
+
+  What the conclusions say: there is ONE piece list `qs` of which `out` is the rendering under the first spelling and
+  `out'` the rendering under the second; and `qs` is, piece by piece, the list of the tokens of the source that survive
+  the removal of the ready elements (`survivors`): a tag piece is an element token as it stands, a text piece is a text
+  token minus the bytes of `F`, which are whitespace (`PExact`, `WsOnly`; `pexact_tags`: as many pieces as surviving
+  tokens, the tags of `qs` are the surviving tags in order).  Without that link a text piece could swallow what looks
+  like a tag.
 -/
 namespace Chiritori.Props.C18
 open Chiritori Chiritori.Spec Chiritori.Props.C19
@@ -19,7 +26,11 @@ theorem respell_exact_wide (d0 : Char) (dr : List Char) (e0 : Char) (er : List C
     (hnu : NoUnwrapAttr (parseSource (renderAll (d0 :: dr) (e0 :: er) ps) (d0 :: dr) (e0 :: er)))
     (h : clean (renderAll (d0 :: dr) (e0 :: er) ps) (d0 :: dr) (e0 :: er) cfg = .ok out)
     (h' : clean (renderAll (d0' :: dr') (e0' :: er') ps) (d0' :: dr') (e0' :: er') cfg = .ok out') :
-    ∃ qs, out = renderAll (d0 :: dr) (e0 :: er) qs ∧ out' = renderAll (d0' :: dr') (e0' :: er') qs :=
+    ∃ qs F F', out = renderAll (d0 :: dr) (e0 :: er) qs ∧ out' = renderAll (d0' :: dr') (e0' :: er') qs ∧
+      PExact (d0 :: dr) (e0 :: er) F qs (survivors (renderAll (d0 :: dr) (e0 :: er) ps) (d0 :: dr) (e0 :: er) cfg) 0 ∧
+      WsOnly F (toksBytes (survivors (renderAll (d0 :: dr) (e0 :: er) ps) (d0 :: dr) (e0 :: er) cfg)) ∧
+      PExact (d0' :: dr') (e0' :: er') F' qs (survivors (renderAll (d0' :: dr') (e0' :: er') ps) (d0' :: dr') (e0' :: er') cfg) 0 ∧
+      WsOnly F' (toksBytes (survivors (renderAll (d0' :: dr') (e0' :: er') ps) (d0' :: dr') (e0' :: er') cfg)) :=
   respell_exact_tn d0 dr e0 er d0' dr' e0' er' hd0 hel hd0' hel' ps hstrip
     (C08.tokenize_wide_tnorm d0 dr e0 er ps hw) (C08.tokenize_wide_tnorm d0' dr' e0' er' ps hw')
     cfg out out' hnu h h'
@@ -54,8 +65,14 @@ theorem rename_exact_wide (d0 : Char) (dr : List Char) (e0 : Char) (er : List Ch
     (h : clean (renderAll (d0 :: dr) (e0 :: er) ps) (d0 :: dr) (e0 :: er) cfg = .ok out)
     (h' : clean (renderAll (d0' :: dr') (e0' :: er') ps') (d0' :: dr') (e0' :: er')
       { cfg with tlName := ρ cfg.tlName, rmName := ρ cfg.rmName } = .ok out') :
-    ∃ qs qs', out = renderAll (d0 :: dr) (e0 :: er) qs ∧ out' = renderAll (d0' :: dr') (e0' :: er') qs' ∧
-      PiecesRen ρ N qs qs' :=
+    ∃ qs qs' F F', out = renderAll (d0 :: dr) (e0 :: er) qs ∧ out' = renderAll (d0' :: dr') (e0' :: er') qs' ∧
+      PiecesRen ρ N qs qs' ∧
+      PExact (d0 :: dr) (e0 :: er) F qs (survivors (renderAll (d0 :: dr) (e0 :: er) ps) (d0 :: dr) (e0 :: er) cfg) 0 ∧
+      WsOnly F (toksBytes (survivors (renderAll (d0 :: dr) (e0 :: er) ps) (d0 :: dr) (e0 :: er) cfg)) ∧
+      PExact (d0' :: dr') (e0' :: er') F' qs' (survivors (renderAll (d0' :: dr') (e0' :: er') ps') (d0' :: dr') (e0' :: er')
+        { cfg with tlName := ρ cfg.tlName, rmName := ρ cfg.rmName }) 0 ∧
+      WsOnly F' (toksBytes (survivors (renderAll (d0' :: dr') (e0' :: er') ps') (d0' :: dr') (e0' :: er')
+        { cfg with tlName := ρ cfg.tlName, rmName := ρ cfg.rmName })) :=
   rename_exact_tn d0 dr e0 er d0' dr' e0' er' ρ N hρ hd0 hel hd0' hel' ps ps' hren hstrip hstrip'
     (C08.tokenize_wide_tnorm d0 dr e0 er ps hw) (C08.tokenize_wide_tnorm d0' dr' e0' er' ps' hw')
     cfg htl hrm out out' hnu h h'
@@ -89,5 +106,22 @@ example : outIs (clean (renderAll "<!-- <".toList "> -->".toList widePs) "<!-- <
       "<div>\n  <b>kept</b>\n</div>\n" = true ∧
     outIs (clean (renderAll "/* <".toList "> */".toList widePs) "/* <".toList "> */".toList wideCfg)
       "<div>\n  <b>kept</b>\n</div>\n" = true := by decide +kernel
+
+/-- an instance in which a tag SURVIVES (a pending `tl`), so that the two outputs differ - in the spelling of that tag only -/
+def widePs2 : List Piece :=
+  [.text "<div>\n  ".toList, C08.mkTag "rm name='a'", .text "\n  <p>x / y * z</p>\n  ".toList, C08.mkTag "/rm",
+   .text "\n  ".toList, C08.mkTag "tl to='2999-01-01 00:00:00'", .text "\n  <b>kept / later</b>\n  ".toList, C08.mkTag "/tl",
+   .text "\n</div>\n".toList]
+
+set_option maxRecDepth 16384 in
+example : wideOK "<!-- <".toList "> -->".toList widePs2 [] = true ∧ wideOK "/* <".toList "> */".toList widePs2 [] = true ∧
+    (widePs2.all fun p => stripB "<!-- <".toList "> -->".toList p && stripB "/* <".toList "> */".toList p) = true := by
+  decide +kernel
+
+set_option maxRecDepth 16384 in
+example : outIs (clean (renderAll "<!-- <".toList "> -->".toList widePs2) "<!-- <".toList "> -->".toList wideCfg)
+      "<div>\n  <!-- <tl to='2999-01-01 00:00:00'> -->\n  <b>kept / later</b>\n  <!-- </tl> -->\n</div>\n" = true ∧
+    outIs (clean (renderAll "/* <".toList "> */".toList widePs2) "/* <".toList "> */".toList wideCfg)
+      "<div>\n  /* <tl to='2999-01-01 00:00:00'> */\n  <b>kept / later</b>\n  /* </tl> */\n</div>\n" = true := by decide +kernel
 
 end Chiritori.Props.C18
